@@ -238,3 +238,16 @@ def escape_docs():
             out.append('$x\\' + c + t + '$')
             out.append('\\begin{a}\\' + c + t + '\\end{a}')
     return out
+
+
+def signature_probe_docs():
+    """every command of the LIVE signature table (read from the code under test: a failing-input search has to look
+    where the code says something special happens) followed by bare tokens, groups and brackets"""
+    from TexSoup.reader import SIGNATURES
+    out = []
+    for n in sorted(SIGNATURES):
+        for t in ('\\%s1{n}', '\\%s a{b}', '\\%s{a}2', '\\%s\\pi 2', '\\%s{a}{b}{c}', '\\%s[o]{a}[p]{b}', '\\%s', '\\%s [o] {a}',
+                  '\\%s{a} [b]', '\\%s\n\n{a}'):
+            s = t.replace('%s', n)
+            out += [s + ' z', '$' + s + '$', '\\begin{a}' + s + '\\end{a}', '{' + s + '}']
+    return out
